@@ -55,7 +55,9 @@ class World(object):
     def __init__(self, variant, tid0, units):
         self.allow_kept = variant.endswith('+kept')
         self.allow_cancel = variant.endswith('+cancel')
-        variant = variant.replace('+kept', '').replace('+cancel', '')
+        # '+exc': the device answers with exception replies (codes 5, 2, 0x0B, 6 in turn) -- they complete their request like any reply
+        self.exc = variant.endswith('+exc')
+        variant = variant.replace('+kept', '').replace('+cancel', '').replace('+exc', '')
         self.variant, self.units = variant, units
         # another connection of the same application, made first and left in the middle of a reply: its receive
         # state is its own
@@ -144,7 +146,7 @@ class World(object):
                 if retry:
                     self._apply(('req',))       # the usual retry idiom: issue the request again from the errback
             rec['d'] = d
-            d.addCallbacks(lambda r, rec=rec: rec['events'].append(('ok', getattr(r, 'transaction_id', None), tuple(getattr(r, 'registers', ())))),
+            d.addCallbacks(lambda r, rec=rec: rec['events'].append(('ok', getattr(r, 'transaction_id', None), tuple(getattr(r, 'registers', ())) or (('exception', getattr(r, 'exception_code', None)) if getattr(r, 'function_code', 0) > 0x80 else ()))),
                            failed)
         elif kind in ('rep', 'dup'):
             self.p.dataReceived(self.reply(ev[1]))
@@ -196,6 +198,8 @@ class World(object):
     def reply(self, i):
         r = self.reqs[i]
         body = pdu.encode(dict(kind='rsp', fc=3, registers=[0x1000 + i]))
+        if self.exc:
+            body = bytes([0x83, EXC_CODES[i % 4]])
         return adu.build(self.framing(), r['unit'], body, tid=r['wire_tid'] or 0)
 
     def outstanding(self):
@@ -262,7 +266,7 @@ def menu(w, max_out, max_req):
 
 
 def check(acc, w, hist, cfgname, units_class):
-    wit = dict(variant=w.variant + ('+kept' if w.allow_kept else '') + ('+cancel' if w.allow_cancel else ''), tid0=hist_tid0[0], units=list(w.units), history=[list(e) for e in hist])
+    wit = dict(variant=w.variant + ('+kept' if w.allow_kept else '') + ('+cancel' if w.allow_cancel else '') + ('+exc' if w.exc else ''), tid0=hist_tid0[0], units=list(w.units), history=[list(e) for e in hist])
     last = hist[-1][0] if hist else 'init'
 
     def bad(what, msg):
@@ -289,7 +293,7 @@ def check(acc, w, hist, cfgname, units_class):
         if len(r['events']) > 1:
             bad('double-fire', 'the deferred of request %d fired %d times: %r' % (i, len(r['events']), r['events']))
         for e in oks:
-            if e[2] != (0x1000 + i,) or (w.variant != 'rtu' and e[1] != r['wire_tid']):
+            if e[2] != ((0x1000 + i,) if not w.exc else ('exception', EXC_CODES[i % 4])) or (w.variant != 'rtu' and e[1] != r['wire_tid']):
                 bad('wrong-reply', 'request %d (id %r) was completed with reply id %r registers %r' % (i, r['wire_tid'], e[1], e[2]))
         if oks and i not in w.delivered:
             bad('wrong-reply', 'request %d completed although its reply was never delivered' % i)
@@ -305,6 +309,7 @@ def check(acc, w, hist, cfgname, units_class):
 
 
 hist_tid0 = [0]
+EXC_CODES = (5, 2, 0x0B, 6)
 
 
 def explore(acc, variant, tid0, units, max_out, depth):
@@ -351,6 +356,8 @@ def run(tier, seed):
     shards.append(('rtu+kept', 0, (1,), 3, 7 if tier == 'quick' else 9))
     shards.append(('tcp+cancel', 0, (1,), 3, 6 if tier == 'quick' else 8))     # the application cancels one pending request
     shards.append(('rtu+cancel', 0, (1,), 3, 6 if tier == 'quick' else 8))
+    shards.append(('tcp+exc', 0, (1, 2), 3, 6 if tier == 'quick' else 9))        # the device answers with exception replies
+    shards.append(('rtu+exc', 0, (1,), 3, 6 if tier == 'quick' else 9))
     acc = par.run_shards(shard, shards)
     he = None if acc.n.get('states', 0) > 200 else 'vacuous: too few states'
     return dict(acc=acc, level=LEVEL, harness_error=he,
@@ -358,7 +365,7 @@ def run(tier, seed):
                     rule='state = canonical form of the real protocol (connected flags, id counter, pending map, per-request deferred history, receive buffer); '
                          'transition = one event applied to a freshly rebuilt protocol with the history replayed; non-trivial = configurations',
                     bounds='TCP variant with one unit and with two alternating units, RTU/FIFO variant; id counter starting at 0 and 0xFFFD; <= %d outstanding requests; '
-                           'all event histories to depth %d' % (max_out, depth)),
+                           'all event histories to depth %d; variants: kept request object, cancelled request, exception replies (codes 5, 2, 0x0B, 6)' % (max_out, depth)),
                 assumptions=['no reactor: the transport is a recording object and events are delivered synchronously',
                              'a serial reply carries no transaction id, so unsolicited/duplicate replies are not expressible for the FIFO variant'])
 
